@@ -128,21 +128,44 @@ def findNoteNames (t : Tuning) (names : List Str) (string : Nat) (maxfret : Nat)
 /-- one cell of the lookup table: `[]` or `(name, dest_frets)` -/
 abbrev Cell := Option (Option Str × List (Nat × Str))
 
+/-- add a destination to the cell of `fret` (creating the cell with `name` if it is still empty) -/
+def addCell (row : List Cell) (fret : Nat) (name : Option Str) (d : Nat × Str) : List Cell :=
+  row.mapIdx fun j c => if j = fret then
+    (match c with
+     | some (nm, l) => some (nm, l ++ [d])
+     | none => some (name, [d])) else c
+
+/-- the body of the inner loop of `make_lookup_table` for one (fret, name) of this string and one (f2, n2) of the next;
+    `k = 0` is "the None cell has not been filled yet" -/
+def cellStep (maxfret : Nat) (maxDistance : Int) (k fret : Nat) (name : Str) (row : List Cell) (d : Nat × Str) : List Cell :=
+  let row := if d.2 ≠ name ∧ (d.1 = 0 ∨ ((fret : Int) - d.1).natAbs < maxDistance) then addCell row fret (some name) d else row
+  if k = 0 then addCell row (maxfret + 1) none d else row
+
+def rowStep (maxfret : Nat) (maxDistance : Int) (next : List (Nat × Str)) (row : List Cell) (kfn : Nat × Nat × Str) : List Cell :=
+  next.foldl (cellStep maxfret maxDistance kfn.1 kfn.2.1 kfn.2.2) row
+
+def tableRow (cur next : List (Nat × Str)) (maxfret : Nat) (maxDistance : Int) : List Cell :=
+  (List.zip (List.range cur.length) cur).foldl (rowStep maxfret maxDistance next) (List.replicate (maxfret + 2) none)
+
 /-- `make_lookup_table` -/
 def makeTable (fretdict : List (List (Nat × Str))) (maxfret : Nat) (maxDistance : Int) : List (List Cell) :=
-  (List.range (fretdict.length - 1)).map fun x =>
-    let cur := fretdict.getD x []
-    let next := fretdict.getD (x + 1) []
-    let row0 : List Cell := List.replicate (maxfret + 2) none
-    let addCell := fun (row : List Cell) (fret : Nat) (name : Option Str) (d : Nat × Str) =>
-      row.mapIdx fun j c => if j = fret then
-        (match c with
-         | some (nm, l) => some (nm, l ++ [d])
-         | none => some (name, [d])) else c
-    (List.zip (List.range cur.length) cur).foldl (fun row (k, (fret, name)) =>
-      next.foldl (fun row (f2, n2) =>
-        let row := if n2 ≠ name ∧ (f2 = 0 ∨ ((fret : Int) - f2).natAbs < maxDistance) then addCell row fret (some name) (f2, n2) else row
-        if k = 0 then addCell row (maxfret + 1) none (f2, n2) else row) row) row0
+  (List.range (fretdict.length - 1)).map fun x => tableRow (fretdict.getD x []) (fretdict.getD (x + 1) []) maxfret maxDistance
+
+/-- the filter inside `follow`: a continuation is kept when this is the first fretted string (`prev < 0`), or its first fret
+    is open or within reach of `prev` -/
+def keepSub (next : Nat) (name : Option Str) (prev : Int) (maxDistance : Int) (sub : List (Nat × Option Str)) :
+    Option (List (Nat × Option Str)) :=
+  if prev < 0 then some ((next, name) :: sub)
+  else match sub with
+    | (f0, _) :: _ => if f0 = 0 ∨ ((f0 : Int) - prev).natAbs < maxDistance then some ((next, name) :: sub) else none
+    | [] => none
+
+/-- the continuations through the lookup table cell -/
+def viaCell (cell : Cell) (next : Nat) (name : Option Str) (prev : Int) (maxDistance : Int)
+    (rec : Nat → Str → List (List (Nat × Option Str))) : List (List (Nat × Option Str)) :=
+  match cell with
+  | none => []
+  | some (_, dests) => dests.flatMap fun (y : Nat × Str) => (rec y.1 y.2).filterMap (keepSub next name prev maxDistance)
 
 /-- `follow(string, next, name, prev)` -/
 def follow (res : List (List Cell)) (nstrings maxfret : Nat) (maxDistance : Int) :
@@ -151,26 +174,59 @@ def follow (res : List (List Cell)) (nstrings maxfret : Nat) (maxDistance : Int)
   | fuel + 1, string, next, name, prev =>
     if string ≥ nstrings - 1 then [[(next, name)]]
     else
-      let cur : Cell := ((res.getD string []).getD next none)
-      let viaTable := match cur with
-        | none => []
-        | some (_, dests) =>
-          dests.flatMap fun (y : Nat × Str) =>
-            (follow res nstrings maxfret maxDistance fuel (string + 1) y.1 (some y.2) (-1)).filterMap fun sub =>
-              if prev < 0 then some ((next, name) :: sub)
-              else match sub with
-                | (f0, _) :: _ => if f0 = 0 ∨ ((f0 : Int) - prev).natAbs < maxDistance then some ((next, name) :: sub) else none
-                | [] => none
+      let via := viaCell ((res.getD string []).getD next none) next name prev maxDistance
+        (fun a b => follow res nstrings maxfret maxDistance fuel (string + 1) a (some b) (-1))
       let skip := (follow res nstrings maxfret maxDistance fuel (string + 1) (maxfret + 1) none next).map fun s => (next, name) :: s
-      let result := viaTable ++ skip
-      if result = [] then [[(next, name)]] else result
+      if via ++ skip = [] then [[(next, name)]] else via ++ skip
+
+/-- the names of a NoteContainer built from the given note names (bare names voiced upward, sorted, duplicates dropped) -/
+def chordNames (names : List Str) : Except Err (List Str) := do
+  let nc ← (if names = [] then pure [] else NC.addNotes [] (names.map NC.AddArg.bare))
+  pure (nc.map (·.name))
+
+def minFret (named : List (Nat × Option Str)) : Int :=
+  named.foldl (fun m p => if p.1 ≠ 0 ∧ (p.1 : Int) ≤ m then (p.1 : Int) else m) (1000 : Int)
+def maxFretOf (named : List (Nat × Option Str)) : Int :=
+  named.foldl (fun m p => if p.1 ≠ 0 ∧ (p.1 : Int) ≥ m then (p.1 : Int) else m) (-1000 : Int)
+
+def fretsOf (sub : List (Nat × Option Str)) : List (Option Int) :=
+  sub.map fun p => if p.2.isSome then some (p.1 : Int) else none
+
+/-- the final test on a candidate: span of the fretted named positions, every chord name present, something named -/
+def acceptSub (notenames : List Str) (maxDistance : Int) (sub : List (Nat × Option Str)) : Option (List (Option Int)) :=
+  let named := sub.filter fun p => p.2.isSome
+  let nms : List Str := named.filterMap (·.2)
+  if decide ((((maxFretOf named) - (minFret named)).natAbs : Int) < maxDistance) && notenames.all (fun x => nms.contains x) && !nms.isEmpty then
+    some (fretsOf sub)
+  else none
+
+/-- every candidate: a cell of the first string's row, one of its destinations, and a continuation from there -/
+def candidates (res : List (List Cell)) (row0 : List Cell) (nstrings maxfret : Nat) (maxDistance : Int) : List (List (Nat × Option Str)) :=
+  (List.zip (List.range row0.length) row0).flatMap fun (x : Nat × Cell) =>
+    match x.2 with
+    | none => []
+    | some (yname, next) =>
+      next.flatMap fun (d : Nat × Str) =>
+        (follow res nstrings maxfret maxDistance nstrings 1 d.1 (some d.2) (-1)).map fun s => (x.1, yname) :: s
+
+def fretKey (x : List (Option Int)) : Int := (x.map fun v => match v with | some a => a | none => 1000).foldl (· + ·) 0
+
+/-- keep the elements for which `p` answers true; the first error aborts (a Python list comprehension with a raising test) -/
+def filterE {α} (p : α → Except Err Bool) : List α → Except Err (List α)
+  | [] => pure []
+  | a :: as => do
+    let b ← p a
+    let r ← filterE p as
+    pure (if b then a :: r else r)
+
+def withinFingers (maxFingers : Nat) (a : List (Option Int)) : Except Err Bool := do
+  let n ← fingersNeeded a
+  pure (decide (n ≤ maxFingers))
 
 /-- `find_chord_fingering(notes, max_distance, maxfret, max_fingers)` for a list of note names -/
 def findChordFingering (t : Tuning) (names : List Str) (maxDistance : Int) (maxfret : Nat) (maxFingers : Nat) :
     Except Err (List (List (Option Int))) := do
-  -- NoteContainer(notes): bare names voiced upward, sorted, duplicates (same pitch) dropped
-  let nc ← (if names = [] then pure [] else NC.addNotes [] (names.map NC.AddArg.bare))
-  let notenames := nc.map (·.name)
+  let notenames ← chordNames names
   if notenames.length = 0 ∨ notenames.length > t.length then pure []
   else do
     let fretdict ← (List.range t.length).mapM fun x => findNoteNames t notenames x maxfret
@@ -178,25 +234,8 @@ def findChordFingering (t : Tuning) (names : List Str) (maxDistance : Int) (maxf
     match res with
     | [] => .error .index
     | row0 :: _ =>
-      let subresults : List (List (Nat × Option Str)) := (List.zip (List.range row0.length) row0).flatMap fun (i, y) =>
-        match y with
-        | none => []
-        | some (yname, next) =>
-          next.flatMap fun (d : Nat × Str) =>
-            (follow res t.length maxfret maxDistance t.length 1 d.1 (some d.2) (-1)).map fun s => (i, yname) :: s
-      let accepted := subresults.filterMap fun sub =>
-        let named := sub.filter fun p => p.2.isSome
-        let mi := named.foldl (fun m p => if p.1 ≠ 0 ∧ (p.1 : Int) ≤ m then (p.1 : Int) else m) (1000 : Int)
-        let ma := named.foldl (fun m p => if p.1 ≠ 0 ∧ (p.1 : Int) ≥ m then (p.1 : Int) else m) (-1000 : Int)
-        let nms : List Str := named.filterMap (·.2)
-        if decide (((ma - mi).natAbs : Int) < maxDistance) && notenames.all (fun x => nms.contains x) && !nms.isEmpty then
-          some (sub.map fun p => match p.2 with | some _ => some (p.1 : Int) | none => none)
-        else none
-      let key := fun (x : List (Option Int)) => (x.map fun v => match v with | some a => a | none => 1000).foldl (· + ·) 0
-      let sorted := sortBy (fun a b => key a < key b) accepted
-      sorted.filterM fun a => do
-        let n ← fingersNeeded a
-        pure (decide (n ≤ maxFingers))
+      let accepted := (candidates res row0 t.length maxfret maxDistance).filterMap (acceptSub notenames maxDistance)
+      filterE (withinFingers maxFingers) (sortBy (fun a b => fretKey a < fretKey b) accepted)
 
 /-! ### the registry -/
 
